@@ -88,6 +88,7 @@ def main(argv=None):
     harness_errors = []
     inconclusive = []
     replays_done = 0
+    spurious = []
     for job, res in zip(jobs, results):
         v = res["verdict"]
         counts[v] = counts.get(v, 0) + 1
@@ -101,8 +102,18 @@ def main(argv=None):
             if rep:
                 violations.append((job, args, res.get("message", ""), detail))
             else:
-                harness_errors.append((job, "counterexample %r does not reproduce natively (%s): %s" % (args, detail, res.get("message"))))
-        elif v in ("VACUOUS", "ERROR"):
+                # the solver's model does not fail against the real code: imprecision of the symbolic model of a
+                # built-in (seen with z3 string ordering / regexes).  Nothing is shown either way: inconclusive.
+                counts["REFUTED"] -= 1
+                counts["UNKNOWN"] += 1
+                spurious.append({"job": job.name, "args": args})
+                inconclusive.append(job.name + " (spurious model %r)" % (args,))
+                print("warning: job %s: solver model %r does not reproduce natively (%s); counted as inconclusive" % (job.name, args, detail), file=sys.stderr)
+        elif v == "VACUOUS":
+            # the reachability twin found no completing path inside the budget (all paths aborted or timed out):
+            # the job proves nothing; it is counted as inconclusive, never as confirmed
+            inconclusive.append(job.name + " (assertion not reached within budget)")
+        elif v == "ERROR":
             harness_errors.append((job, "%s: %s" % (v, res.get("message"))))
         elif v == "UNKNOWN":
             inconclusive.append(job.name)
@@ -147,8 +158,9 @@ def main(argv=None):
             "samples": samples or [{"note": "no jobs"}],
             "exhaustive": bool(jobs) and counts["CONFIRMED"] == len(jobs),
             "explanation": "states = execution paths of the harness explored symbolically by CrossHair (each path = one equivalence class of inputs); transitions = z3 satisfiability queries; exhaustive=true means every job was 'Confirmed over all paths' inside its bounds",
-            "jobs": {"total": len(jobs), "confirmed": counts["CONFIRMED"], "refuted": counts["REFUTED"], "inconclusive": counts["UNKNOWN"], "vacuous": counts["VACUOUS"], "error": counts["ERROR"]},
+            "jobs": {"total": len(jobs), "confirmed": counts["CONFIRMED"], "refuted": counts["REFUTED"], "inconclusive": counts["UNKNOWN"] + counts["VACUOUS"], "vacuous": counts["VACUOUS"], "error": counts["ERROR"]},
             "inconclusive_jobs": inconclusive[:50],
+            "spurious_models": spurious[:20],
             "solver_s": solver_s,
             "functions_encoded": sorted(funcs) if funcs else info.get("functions", []),
             "functions_encoded_note": "repo functions entered while running one in-bounds sample of each job natively (the same functions execute under CrossHair tracing); parsing functions run outside tracing on concrete text",
@@ -170,7 +182,7 @@ def main(argv=None):
     with open(os.path.join(VERIF, "evidence", prop + ".json"), "w") as f:
         json.dump(ev, f, indent=1, default=str)
 
-    print("%s tier=%s jobs=%d confirmed=%d refuted=%d inconclusive=%d errors=%d paths=%d z3-queries=%d z3-time=%.1fs wall=%.1fs" % (prop, tier, len(jobs), counts["CONFIRMED"], counts["REFUTED"], counts["UNKNOWN"], counts["VACUOUS"] + counts["ERROR"], paths, queries, solver_s, wall))
+    print("%s tier=%s jobs=%d confirmed=%d refuted=%d inconclusive=%d errors=%d paths=%d z3-queries=%d z3-time=%.1fs wall=%.1fs" % (prop, tier, len(jobs), counts["CONFIRMED"], counts["REFUTED"], counts["UNKNOWN"] + counts["VACUOUS"], counts["ERROR"], paths, queries, solver_s, wall))
     if violations:
         return EXIT_VIOLATION
     if harness_errors:
